@@ -7,7 +7,7 @@ from props import hexcommon as hc
 RULE = ("HEX-RT: per variant, seeded plausible/random/degenerate hashes through Display, to_string, "
         "store_into_str_bytes (both prefixes), every parse entry point (auto/with/empty, mixed letter case, "
         "FromStr, from_str_with), plus every value of every header byte and of one body byte.  HEX-CHAIN: "
-        "parse(format(h)) == h and format(parse(s)) == T1+upper(strip(s)) evaluated on the implementation alone. "
+        "parse(format(h)) == h and format(parse(s)) == T1+upper(strip(s)) evaluated on the implementation alone.  HEX-CANONICAL: the near-valid stream (single/double damage at every position, all 65536 byte pairs at a header and a body digit-pair position): every string the parser accepts must re-format to T1 + its own upper-cased digits. "
         "Non-trivial = a case whose outcome is ok/value (a real round trip), distinct by case text.")
 
 
@@ -24,7 +24,31 @@ def run(ctx):
     ctx.correspond("HEX-RT", cases, hb, db, flags=fl, predicate=pred,
                    nontrivial=lambda c, i: i.startswith("ok") or i.startswith("x"))
     hc.run_roundtrip_chain(ctx, hb, ctx.rng.fork("chain"), ctx.tier)
+    # canonicity on NEAR-valid strings: whatever the parser accepts must re-format to "T1" + its own
+    # upper-cased digits (so no two different accepted strings, up to case/prefix, denote one hash)
+    near = [c for c in suites.hex_malformed_cases(ctx.rng.fork("near"), ctx.tier) if c.startswith("parse")]
+    near += suites.hex_pair_sweep_cases(ctx.rng.fork("nearsweep"), ctx.tier)
+    ctx.correspond("HEX-CANONICAL", near, hb, db, flags=fl, predicate=pred_canonical, coq_sample=6,
+                   nontrivial=lambda c, i: i.startswith("ok"))
     return finish(ctx)
+
+
+def pred_canonical(c, i, m):
+    import pyref
+    p = c.split(" ")
+    if not i.startswith("ok "):
+        return None
+    v, s = p[1], pyref.unhex(p[3])
+    digits = s[2:] if len(s) == suites.VARIANTS[v][4] else s
+    canon = pyref.fmt(v, pyref.unhex(i.split(" ")[1]))
+    try:
+        own = b"T1" + digits.decode("ascii").upper().encode()
+    except UnicodeDecodeError:
+        own = None
+    if canon != own:
+        return ("accepted string does not re-format to T1 + its own upper-cased digits (re-formats to %s): two different "
+                "accepted strings denote one hash" % canon.decode())
+    return None
 
 
 def finish(ctx):
